@@ -111,6 +111,7 @@ func Build(mod *genlab.Module, name string, jobs []SpecJob, race bool) (*Driver,
 type RunResult struct {
 	Exit     int
 	Output   string // stdout+stderr tail
+	Fatal    string // the first "fatal error:" / "panic:" line of the log with the lines that follow it (process-fatal runtime errors)
 	OutFile  string
 	Watchdog bool
 }
@@ -155,6 +156,16 @@ func (d *Driver) Run(job any, timeout time.Duration, env ...string) (*RunResult,
 	lf.Close()
 	lb, _ := os.ReadFile(logFile)
 	res.Output = tail(string(lb), 8000)
+	for _, mark := range []string{"\nfatal error: ", "\npanic: "} {
+		if i := strings.Index("\n"+string(lb), mark); i >= 0 {
+			f := string(lb)[i:]
+			if len(f) > 6000 {
+				f = f[:6000] + "…"
+			}
+			res.Fatal = f
+			break
+		}
+	}
 	if err != nil {
 		if ee, ok := err.(*exec.ExitError); ok {
 			res.Exit = ee.ExitCode()
